@@ -66,6 +66,8 @@ def coq_ty(t) -> str:
             return f"(option {coq_ty(t[1])})"
         if t[0] == "prod":
             return "(" + " * ".join(coq_ty(x) for x in t[1]) + ")"
+        if t[0] == "rec":  # a dict display with constant string keys: a tuple in key order
+            return "(" + " * ".join(coq_ty(x) for _, x in t[1]) + ")"
     raise Unsupported(ast.Constant(str(t)), "type without a Gallina rendering")
 
 
@@ -128,11 +130,20 @@ PARAMS = {
     "weakly_increasing": {"list": L(Z)},
     "to_dok": {"explicit_zeros": B},
     "items": {},
+    "taco_indices": {},
+    "taco_vals": {},
+    "__getstate__": {},
+    "__setstate__": {"state": ("rec", (("dimensions", L(Z)), ("mode_types", L(Z)), ("mode_ordering", L(Z)),
+                                       ("indices", L(L(L(Z)))), ("vals", L(V))))},
+    "to_format": {"format": FORMAT},
+    "__post_init__": {},
 }
+STATE = PARAMS["__setstate__"]["state"]
 LOCALS = {
     "coordinates_to_tree": {"tree": O(TREE)},
     "tree_to_indices_and_values": {"indexes": L(L(L(Z))), "values": L(V)},
     "lol_to_coordinates_and_values": {"coordinates": L(L(Z)), "values": L(V)},
+    "taco_indices": {"indices": L(L(L(Z)))},
 }
 RETS = {
     "coordinates_to_tree": O(TREE),
@@ -140,17 +151,24 @@ RETS = {
     "lol_to_coordinates_and_values": P(L(L(Z)), L(V)),
     "weakly_increasing": B,
     "to_dok": D(L(Z), V),
+    "taco_indices": L(L(L(Z))),
+    "taco_vals": L(V),
+    "__getstate__": STATE,
 }
 STORED = P(L(L(L(Z))), L(V), L(Z), L(Z), L(Z))  # what taco_structure_to_cffi hands to cffi
 # the prologue of Tensor.items / to_dok: values read from the C structure are INPUTS (the boundary)
-INPUTS = {
-    "order = self.order": ("order", Z),
-    "modes = self.modes": ("modes", L(MODE)),
-    "dimensions = self.dimensions": ("dimensions", L(Z)),
-    "mode_ordering = self.mode_ordering": ("mode_ordering", L(Z)),
-    "cffi_indexes = tensor_cdefs.cast('int32_t***', self.cffi_tensor.indices)": ("cffi_indexes", C(C(C(Z)))),
-    "cffi_values = tensor_cdefs.cast('double*', self.cffi_tensor.vals)": ("cffi_values", C(V)),
+INPUTS = {  # statement -> (variable, type, what of the object it is)
+    "order = self.order": ("order", Z, "order"),
+    "modes = self.modes": ("modes", L(MODE), "modes"),
+    "dimensions = self.dimensions": ("dimensions", L(Z), "dimensions"),
+    "mode_ordering = self.mode_ordering": ("mode_ordering", L(Z), "mode_ordering"),
+    "cffi_indexes = tensor_cdefs.cast('int32_t***', self.cffi_tensor.indices)": ("cffi_indexes", C(C(C(Z))), "indices"),
+    "cffi_values = tensor_cdefs.cast('double*', self.cffi_tensor.vals)": ("cffi_values", C(V), "vals"),
+    "cffi_vals = tensor_cdefs.cast('double*', self.cffi_tensor.vals)": ("cffi_vals", C(V), "vals"),
 }
+# a method translated as a function of the whole object takes these six (the C structure, read through cffi)
+SELF = [("order", Z, "order"), ("modes", L(MODE), "modes"), ("dimensions", L(Z), "dimensions"),
+        ("mode_ordering", L(Z), "mode_ordering"), ("cffi_indexes", C(C(C(Z))), "indices"), ("cffi_values", C(V), "vals")]
 BOUNDARY_WORDS = ("tensor_cdefs", "global_weakkeydict", "memory_holder", "tensor_lib")
 
 
@@ -189,6 +207,8 @@ class Env:
         self.binds: list = []  # pending (pattern, text, kind) with kind in {"bind", "let"}
         self.counter = tr.counter
         self.static_false: set = set()
+        self.selfkeys: dict = {}  # what of the object -> variable holding it
+        self.selfattr: dict = {}  # self.<attr> -> (text, type)
 
     def fresh(self, base="t"):
         self.counter[0] += 1
@@ -207,6 +227,7 @@ class Env:
         e = Env(self.tr, self.fn)
         e.types, e.declared = dict(self.types), dict(self.declared)
         e.static_false = set(self.static_false)
+        e.selfkeys, e.selfattr = dict(self.selfkeys), dict(self.selfattr)
         return e
 
 
@@ -228,6 +249,7 @@ class TB:
         self.counter = [0]
         self.enum_attrs: dict[str, list] = {}
         self.format_fields: list = []
+        self.format_property_ok = False
         self.out: list[str] = []
 
     # -------------------------------------------------------------------------------- coercions
@@ -316,6 +338,10 @@ class TB:
             return self.display(e, env, want)
         if isinstance(e, ast.Dict) and not e.keys:
             return "[]", EDICT
+        if isinstance(e, ast.Dict) and all(isinstance(k, ast.Constant) and isinstance(k.value, str) for k in e.keys) \
+                and len({k.value for k in e.keys}) == len(e.keys) >= 2:
+            parts = [self.expr(v, env) for v in e.values]
+            return "(" + ", ".join(t for t, _ in parts) + ")", ("rec", tuple((k.value, ty) for k, (_, ty) in zip(e.keys, parts)))
         if isinstance(e, ast.Subscript):
             return self.subscript(e, env)
         if isinstance(e, ast.Attribute):
@@ -457,6 +483,23 @@ class TB:
 
     def subscript(self, e: ast.Subscript, env: Env):
         c, ct = self.expr(e.value, env)
+        if isinstance(e.slice, ast.Slice) and isinstance(ct, tuple) and ct[0] == "carr":
+            s = e.slice
+            if s.lower is None or s.upper is None or s.step is not None:
+                raise Unsupported(e, "slice of a C array")
+            (lo, lt), (hi, ht) = self.expr(s.lower, env), self.expr(s.upper, env)
+            self.need(lt, Z, e)
+            self.need(ht, Z, e)
+            return env.bind(f"(c_slice {c} {lo} {hi})"), L(ct[1])
+        if isinstance(ct, tuple) and ct[0] == "rec":
+            if not (isinstance(e.slice, ast.Constant) and isinstance(e.slice.value, str)):
+                raise Unsupported(e, "record key")
+            keys = [k for k, _ in ct[1]]
+            if e.slice.value not in keys:
+                raise Unsupported(e, "no such key")
+            i = keys.index(e.slice.value)
+            names = [f"k{j}_" if j == i else "_" for j in range(len(keys))]
+            return f"(let '({', '.join(names)}) := {c} in k{i}_)", ct[1][i][1]
         if isinstance(e.slice, ast.Slice):
             s = e.slice
             if s.upper is None and s.step is None and isinstance(s.lower, ast.Constant) and type(s.lower.value) is int \
@@ -482,6 +525,18 @@ class TB:
         src = ast.unparse(e)
         if src == "cffi_tensor.order" and env.types.get("cffi_tensor") == "cffi":
             return env.types["cffi_tensor.order"]
+        if isinstance(e.value, ast.Name) and e.value.id == "self" and "self" not in env.types:
+            if e.attr in env.selfattr:
+                return env.selfattr[e.attr]
+            if e.attr in ("order", "modes", "dimensions", "mode_ordering") and e.attr in env.selfkeys:
+                v = env.selfkeys[e.attr]
+                return sv(v), env.types[v]
+            if e.attr == "format" and "modes" in env.selfkeys and "mode_ordering" in env.selfkeys and self.format_property_ok:
+                # the property: Format(self.modes, self.mode_ordering)
+                return env.bind(f"(Format_new V Vzero Vadd Veqb {sv(env.selfkeys['modes'])} {sv(env.selfkeys['mode_ordering'])})", "f"), FORMAT
+            if e.attr in ("taco_indices", "taco_vals") and e.attr in self.fns:
+                return env.bind(self.call_self(self.fns[e.attr], env, e, []), "r"), self.fns[e.attr].ret
+            raise Unsupported(e, "attribute of self")
         t, ty = self.expr(e.value, env)
         if ty == FORMAT and e.attr in [f for f, _ in self.format_fields]:
             return f"(Format_{e.attr} {t})", dict(self.format_fields)[e.attr]
@@ -609,6 +664,10 @@ class TB:
                 return self.call_fn(self.fns[n], e, env, stmt=False)
         if isinstance(f, ast.Attribute) and ast.unparse(f.value) == "Tensor" and f.attr in self.fns:
             return self.call_fn(self.fns[f.attr], e, env, stmt=False)
+        if isinstance(f, ast.Attribute) and ast.unparse(f) == "self.to_dok" and "self" not in env.types \
+                and "to_dok" in self.fns and not e.args and not e.keywords:
+            fn = self.fns["to_dok"]
+            return env.bind(self.call_self(fn, env, e, ["false"]), "r"), fn.ret
         if isinstance(f, ast.Attribute) and ast.unparse(f) == "self.items" and "self.items()" in env.types:
             if e.args or e.keywords:
                 raise Unsupported(e, "self.items() with arguments")
@@ -634,6 +693,24 @@ class TB:
                 self.need(xt, ot[1], e)
                 return env.bind(f"(of_opt (py_index {eqb_of(xt, e)} {o} {x}))"), Z
         raise Unsupported(e, "call")
+
+    def call_self(self, fn: Fn, env: Env, node, args: list[str]) -> str:
+        """Call of a translated method / property on the same object: the parts of the object it reads."""
+        texts = []
+        for n, ty in fn.ro:
+            if n == "items_":
+                its = self.fns.get("items")
+                if its is None:
+                    raise Unsupported(node, "items is not translated")
+                texts.append(env.bind(self.call_self(its, env, node, []), "r"))
+                continue
+            key = fn.self_keys.get(n)
+            if key is None or key not in env.selfkeys or env.types.get(env.selfkeys[key]) != ty:
+                raise Unsupported(node, f"{fn.name} reads {n} of the object, which is not available here")
+            texts.append(sv(env.selfkeys[key]))
+        if fn.fuel and not env.fn.fuel:
+            raise Unsupported(node, "call of a recursive function from a function without fuel")
+        return "(" + " ".join([fn.coq, "V Vzero Vadd Veqb"] + (["fuel"] if fn.fuel else []) + texts + args) + ")"
 
     def call_fn(self, fn: Fn, e: ast.Call, env: Env, stmt: bool):
         """Call of a translated function.  As an expression it must be effect free on its
@@ -780,7 +857,8 @@ class TB:
         if isinstance(s, ast.Expr) and isinstance(s.value, ast.Constant) and isinstance(s.value.value, str):
             return cont(env)
         if isinstance(s, (ast.Pass, ast.ImportFrom)):
-            if isinstance(s, ast.ImportFrom) and ast.unparse(s) != "from .compile import tensor_cdefs":
+            if isinstance(s, ast.ImportFrom) and ast.unparse(s) not in (
+                    "from .compile import tensor_cdefs", "from ._exceptions import InvalidModeOrderingError"):
                 raise Unsupported(s, "import")
             return cont(env)
         if isinstance(s, ast.FunctionDef):
@@ -803,6 +881,10 @@ class TB:
         if isinstance(s, ast.Raise):
             env.take()
             return "Exc"
+        if isinstance(s, ast.Assign) and len(s.targets) == 1 and ast.unparse(s.targets[0]) == "self.cffi_tensor" \
+                and not rest and env.fn.name == "__setstate__":
+            # the object is (re)initialised with this structure: the result of the method
+            return self.block([ast.copy_location(ast.Return(value=s.value), s)], env, k)
         if isinstance(s, ast.Assign) and len(s.targets) == 1:
             return self.assign(s.targets[0], s.value, env, cont, s)
         if isinstance(s, ast.AugAssign):
@@ -1236,24 +1318,33 @@ class TB:
         return []
 
     def toplevel(self, node: ast.FunctionDef, name=None, method=False, static_false=(), inputs=False,
-                 cut_at_boundary=False, ret=None, gen=None, items_input=None):
+                 cut_at_boundary=False, ret=None, gen=None, items_input=None, selfobj=False, selfattr=None):
         name = name or node.name
         decos = [ast.unparse(d) for d in node.decorator_list]
-        if decos not in ([], ["staticmethod"]):
+        if decos not in ([], ["staticmethod"], ["property"]):
             raise Unsupported(node, "decorator")
         params = self.params_of(name, node, skip_self=method)
         body = list(node.body)
         ro = []
+        self_keys: dict = {}
         if inputs:
             # prologue: values read from the C structure become inputs of the translated function
+            # (also further down, as in taco_vals: the cast is pure)
             rest = []
             for s in body:
                 src = ast.unparse(s)
-                if src in INPUTS and all(isinstance(r, ast.ImportFrom) for r in rest):
-                    ro.append(INPUTS[src])
+                if src in INPUTS and INPUTS[src][0] not in [n for n, _ in ro]:
+                    ro.append(INPUTS[src][:2])
+                    self_keys[INPUTS[src][0]] = INPUTS[src][2]
                 else:
                     rest.append(s)
             body = rest
+        if selfobj:
+            for n, t, key in SELF:
+                ro.append((n, t))
+                self_keys[n] = key
+        for n, t in (selfattr or {}).values():
+            ro.append((n, t))
         if items_input is not None:
             ro.append(("items_", items_input))
         if cut_at_boundary:
@@ -1270,7 +1361,8 @@ class TB:
             body = keep
         fn = Fn(name, name, ro + params if False else params, [], [], [], ret if ret is not None else RETS.get(name), gen, False, False)
         fn.ro = ro
-        fn.fuel = self.needs_fuel(node)
+        fn.self_keys = self_keys
+        fn.fuel = self.needs_fuel(node) or (selfobj and "self.to_dok" in ast.unparse(node))
         self.fns[name] = fn
         a = node.args
         fn.defaults = {}
@@ -1282,6 +1374,8 @@ class TB:
             env.types[n] = t
         if items_input is not None:
             env.types["self.items()"] = items_input
+        env.selfkeys = {key: n for n, key in self_keys.items()}
+        env.selfattr = dict(selfattr or {})
         env.static_false = set(static_false)
         pre = ""
         if gen is not None:
@@ -1387,6 +1481,20 @@ def gen_tensorbuild(src: Path) -> str:
     tb.toplevel(find_fn(T, "from_lol", "Tensor"), static_false=spec, ret=STORED)
     tb.toplevel(find_fn(T, "items", "Tensor"), method=True, inputs=True, gen=ITEM)
     tb.toplevel(find_fn(T, "to_dok", "Tensor"), method=True, items_input=L(ITEM))
+    # Format(...) as a checked constructor: __post_init__, then the record
+    tb.toplevel(find_fn(Fm, "__post_init__", "Format"), name="__post_init__", method=True,
+                selfattr={"modes": ("modes", L(MODE)), "ordering": ("ordering", L(Z))})
+    tb.out.append("Definition Format_new " + VPARAMS + " (modes : list Mode) (ordering : list Z) : R Format :=\n"
+                  "  rbind (__post_init__ V Vzero Vadd Veqb modes ordering) (fun _ => Val (mkFormat modes ordering)).\n")
+    fprop = find_fn(T, "format", "Tensor")
+    if [ast.unparse(x) for x in fprop.body] != ["return Format(self.modes, self.mode_ordering)"]:
+        raise Unsupported(fprop, "the property Tensor.format is no longer Format(self.modes, self.mode_ordering)")
+    tb.format_property_ok = True
+    tb.toplevel(find_fn(T, "taco_indices", "Tensor"), method=True, inputs=True)
+    tb.toplevel(find_fn(T, "taco_vals", "Tensor"), method=True, inputs=True)
+    tb.toplevel(find_fn(T, "__getstate__", "Tensor"), method=True, selfobj=True)
+    tb.toplevel(find_fn(T, "__setstate__", "Tensor"), method=True, ret=STORED)
+    tb.toplevel(find_fn(T, "to_format", "Tensor"), method=True, selfobj=True, static_false=("format",), ret=STORED)
     return "\n".join(head) + "\n" + "\n".join(tb.out)
 
 
